@@ -5,26 +5,44 @@
     sets loaded into a fresh repository followed by [FindRule]s.  A case holds
     the inputs and what the implementation answered.  Per case:
 
-    - correspondence: every [Add] / [AddRuleSet] result and every lookup answer
-      equals what the machine of Radix/Machine.v computes ([lookup false] = the
-      code as it is since fix e897fef, [lookup true] = the pinned tree) AND what the
-      compressed tree of Radix/Tree.v (the transcription of tree.go) computes;
-      that tree satisfies its shape invariant [wfb] and its abstraction [abs]
-      is the machine's index (so theorem C02_tree_refines_machine applies to it);
-    - property: every lookup answer equals [spec_lookup] on the index content
-      the IMPLEMENTATION accepted (expression -> values in insertion order, flag,
-      key names), built by [spec_db] without the machine;
-    - guard 1 (C02-F1, only with [impl_fixed = false], i.e. against the pinned tree)
-      fires for the case iff it fires for some lookup and every lookup that is not
-      a plain pass is one the guard fires for — so an unrelated failure in the same
-      case is never excused by the finding. *)
+    - the index content is built from the Adds / rule sets the IMPLEMENTATION
+      accepted ([spec_db_from]: expression -> values in insertion order, flag of the
+      last Add, key names).  Which Adds are accepted is not part of the property and
+      not part of the verdict; a difference between the model's and the
+      implementation's acceptance only raises the inert indicator 9;
+    - correspondence: every lookup answer equals what the machine of Radix/Machine.v
+      ([lookup false] = the code as it is since fix e897fef) and the compressed tree of
+      Radix/Tree.v (the transcription of tree.go, built from the accepted Adds) compute;
+    - property: every lookup answer equals [spec_lookup] on that content with every
+      expression's flag as the PROPERTY states it ([respec]: the conjunction of the
+      flags of its rules);
+    - conditions are data, capture-aware ([m_cap]): the acceptable ids and, per id, a
+      test on the key names / captured values handed to the matcher;
+    - guard 2 (C02-F2: the flag in force is the last Add's) / guard 1 (C02-F1, pinned tree
+      only) fire for the case iff they fire for some lookup that is not a plain pass and
+      every lookup that is not a plain pass is covered by a guard — an unrelated failure
+      in the same case is never excused by a finding. *)
 From HV Require Export Base.Prelude Radix.Spec Radix.Machine Radix.Load Radix.Tree C02.Model.
 
 Definition s2l : string -> str := list_ascii_of_string.
 
-(** conditions as data: the ids of the rules whose additional conditions hold *)
-Definition m_ok (ok : list nat) : matcher rval :=
-  fun v _ _ => existsb (Nat.eqb (fst v)) ok.
+(** conditions as data (harness/c02/gen.go [Accept] is the same function) *)
+Definition has (needle : str) (l : list str) : bool := existsb (str_eqb needle) l.
+
+Definition m_cap (ok : list nat) (modes : list (nat * nat)) (needle : str) : matcher rval :=
+  fun v ks caps =>
+    existsb (Nat.eqb (fst v)) ok &&
+    match find (fun x => Nat.eqb (fst x) (fst v)) modes with
+    | Some (_, 1) => has needle caps
+    | Some (_, 2) => negb (has needle caps)
+    | Some (_, 3) => Nat.eqb (length ks) (length caps)
+    | Some (_, 4) => has needle ks
+    | _ => true
+    end.
+
+(** the backtracking_enabled of the rule a value belongs to *)
+Definition vflag_of (tbl : list (nat * bool)) (v : rval) : bool :=
+  match find (fun x => Nat.eqb (fst x) (fst v)) tbl with Some (_, b) => b | None => true end.
 
 Definition found_id (f : found rval) : option nat :=
   match f with Found v _ _ => Some (fst v) | NoMatch => None end.
@@ -74,8 +92,7 @@ Fixpoint tload (t : tree rval) (l : list (addop rval)) : tree rval * list (tres 
   end.
 
 (** [impl_fixed] = the C02-F1 repair (commit e897fef); the switches of C03-F2 / C03-F5
-    (commits 88da16a, 16cf34b) are on: they cannot change the id returned for
-    conditions that do not look at captures (TreeProofs.find_node_caps_blind) *)
+    (commits 88da16a, 16cf34b) are on *)
 Definition tfind (impl_fixed : bool) (t : tree rval) (path : str) (m : matcher rval) : found rval :=
   tree_find impl_fixed true true m t path.
 
@@ -83,26 +100,30 @@ Definition tree_ok (t : tree rval) (d : db rval) : bool := wfb t && db_equiv (ab
 
 (** ** per-lookup verdicts, combined *)
 
-Record lv := { lv_corr : bool; lv_prop : bool; lv_guard : bool }.
+Record lv := { lv_corr : bool; lv_prop : bool; lv_g1 : bool; lv_g2 : bool }.
 
-Definition combine (pre_corr : bool) (l : list lv) : verdict :=
-  let covered := pre_corr && forallb (fun x => (lv_corr x && lv_prop x) || lv_guard x) l in
-  {| v_corr := pre_corr && forallb lv_corr l;
+Definition plain (x : lv) : bool := lv_corr x && lv_prop x.
+
+Definition combine (acceptance_same : bool) (l : list lv) : verdict :=
+  let covered := forallb (fun x => plain x || lv_g1 x || lv_g2 x) l in
+  {| v_corr := forallb lv_corr l;
      v_prop := forallb lv_prop l;
-     v_guards := guards [(1%Z, covered && existsb lv_guard l)] |}.
+     v_guards := guards [(1%Z, covered && existsb (fun x => lv_g1 x && negb (plain x)) l);
+                         (2%Z, covered && existsb (fun x => lv_g2 x && negb (plain x)) l);
+                         (9%Z, negb acceptance_same)] |}.
 
 (** ** stream "tree" *)
 
-Inductive add_obs := OAdded | OInvalid | OConstraint.
+Inductive add_obs := OAdded | OInvalid | OConstraint | OOther.
 
 Definition add_obs_eqb (a b : add_obs) : bool :=
   match a, b with
   | OAdded, OAdded | OInvalid, OInvalid | OConstraint, OConstraint => true
-  | _, _ => false
+  | _, _ => false          (* [OOther]: a result class the model does not know *)
   end.
 
 Record add_in := { a_expr : string; a_id : nat; a_src : nat; a_bt : bool; a_obs : add_obs }.
-Record lk := { l_path : string; l_ok : list nat; l_obs : option nat }.
+Record lk := { l_path : string; l_ok : list nat; l_modes : list (nat * nat); l_needle : string; l_obs : option nat }.
 Record case := { c_adds : list add_in; c_lks : list lk }.
 
 Definition op_of (a : add_in) : addop rval :=
@@ -119,31 +140,36 @@ Definition accepted (l : list add_in) : list (addop rval) :=
 
 Definition onat_eqb : option nat -> option nat -> bool := option_eqb Nat.eqb.
 
-Definition check_lk (impl_fixed : bool) (d : db rval) (t : tree rval) (sd : option (db rval)) (l : lk) : lv :=
+Definition check_lk (impl_fixed : bool) (sd : option (db rval)) (t : tree rval) (tbl : list (nat * bool)) (l : lk) : lv :=
   let path := s2l (l_path l) in
-  let m := m_ok (l_ok l) in
-  {| lv_corr := onat_eqb (found_id (find_in (negb impl_fixed) d path m)) (l_obs l)
-                && onat_eqb (found_id (tfind impl_fixed t path m)) (l_obs l);
-     lv_prop := match sd with
-                | Some s => onat_eqb (found_id (spec_lookup s path m)) (l_obs l)
-                | None => false
-                end;
-     lv_guard := negb impl_fixed &&
-                 match sd with Some s => guard_F1 s path m | None => false end |}.
+  let m := m_cap (l_ok l) (l_modes l) (s2l (l_needle l)) in
+  match sd with
+  | None => {| lv_corr := false; lv_prop := false; lv_g1 := false; lv_g2 := false |}
+  | Some d =>
+    {| lv_corr := onat_eqb (found_id (find_in (negb impl_fixed) d path m)) (l_obs l)
+                  && onat_eqb (found_id (tfind impl_fixed t path m)) (l_obs l);
+       lv_prop := onat_eqb (found_id (spec_lookup (respec (vflag_of tbl) d) path m)) (l_obs l);
+       lv_g1 := negb impl_fixed && guard_F1 d path m;
+       lv_g2 := guard_F2 (vflag_of tbl) d path m |}
+  end.
 
 Definition check_tree (impl_fixed : bool) (c : case) : verdict :=
   let ops := map op_of (c_adds c) in
-  let d := load same_src ops in
-  let adds_ok := list_eqb add_obs_eqb (map kind_of (load_results same_src [] ops)) (map a_obs (c_adds c)) in
-  let (t, tres) := tload empty_tree ops in
-  let tadds_ok := list_eqb (option_eqb add_obs_eqb) (map tkind_of tres) (map (fun a => Some (a_obs a)) (c_adds c)) in
-  let sd := spec_db_from [] (accepted (c_adds c)) in
-  combine (adds_ok && tadds_ok && tree_ok t d) (map (check_lk impl_fixed d t sd) (c_lks c)).
+  let acc := accepted (c_adds c) in
+  let sd := spec_db_from [] acc in
+  let t := fst (tload empty_tree acc) in
+  let tbl := map (fun a => (a_id a, a_bt a)) (c_adds c) in
+  (* acceptance, not part of the verdict: the machine's and the tree model's own results on ALL Adds *)
+  let adds_same := list_eqb add_obs_eqb (map kind_of (load_results same_src [] ops)) (map a_obs (c_adds c)) in
+  let tadds_same := list_eqb (option_eqb add_obs_eqb) (map tkind_of (snd (tload empty_tree ops)))
+                             (map (fun a => Some (a_obs a)) (c_adds c)) in
+  let shape_same := match sd with Some d => tree_ok t d | None => false end in
+  combine (adds_same && tadds_same && shape_same) (map (check_lk impl_fixed sd t tbl) (c_lks c)).
 
 (** ** stream "repo" *)
 
 Record rs_in := { s_src : nat; s_rules : list rule_def; s_obs : bool }.
-Record rlk := { rl_path : string; rl_ok : list nat; rl_obs : outcome }.
+Record rlk := { rl_path : string; rl_ok : list nat; rl_modes : list (nat * nat); rl_needle : string; rl_obs : outcome }.
 Record rcase := { rc_default : bool; rc_sets : list rs_in; rc_lks : list rlk }.
 
 Fixpoint load_sets (d : db rval) (l : list rs_in) : db rval * list bool :=
@@ -167,31 +193,37 @@ Fixpoint tload_sets (t : tree rval) (l : list rs_in) : tree rval * list bool :=
 Definition accepted_sets (l : list rs_in) : list (addop rval) :=
   flat_map (fun s => if s_obs s then ruleset_adds (s_src s) (s_rules s) else []) l.
 
-Definition check_rlk (impl_fixed : bool) (dflt : bool) (d : db rval) (t : tree rval) (sd : option (db rval)) (l : rlk) : lv :=
+Definition rule_flags (l : list rs_in) : list (nat * bool) :=
+  flat_map (fun s => map (fun r => (r_id r, r_bt r)) (s_rules s)) l.
+
+Definition check_rlk (impl_fixed : bool) (dflt : bool) (sd : option (db rval)) (t : tree rval) (tbl : list (nat * bool)) (l : rlk) : lv :=
   let path := s2l (rl_path l) in
-  let m := m_ok (rl_ok l) in
-  {| lv_corr := outcome_eqb (find_rule (negb impl_fixed) d dflt path m) (rl_obs l)
-                && outcome_eqb (outcome_of dflt (tfind impl_fixed t path m)) (rl_obs l);
-     lv_prop := match sd with
-                | Some s => outcome_eqb (spec_find_rule s dflt path m) (rl_obs l)
-                | None => false
-                end;
-     lv_guard := negb impl_fixed &&
-                 match sd with Some s => guard_F1 s path m | None => false end |}.
+  let m := m_cap (rl_ok l) (rl_modes l) (s2l (rl_needle l)) in
+  match sd with
+  | None => {| lv_corr := false; lv_prop := false; lv_g1 := false; lv_g2 := false |}
+  | Some d =>
+    {| lv_corr := outcome_eqb (find_rule (negb impl_fixed) d dflt path m) (rl_obs l)
+                  && outcome_eqb (outcome_of dflt (tfind impl_fixed t path m)) (rl_obs l);
+       lv_prop := outcome_eqb (spec_find_rule (respec (vflag_of tbl) d) dflt path m) (rl_obs l);
+       lv_g1 := negb impl_fixed && guard_F1 d path m;
+       lv_g2 := guard_F2 (vflag_of tbl) d path m |}
+  end.
 
 Definition check_repo (impl_fixed : bool) (c : rcase) : verdict :=
-  let (d, oks) := load_sets [] (rc_sets c) in
-  let sets_ok := list_eqb Bool.eqb oks (map s_obs (rc_sets c)) in
-  let (t, toks) := tload_sets empty_tree (rc_sets c) in
-  let tsets_ok := list_eqb Bool.eqb toks (map s_obs (rc_sets c)) in
-  let sd := spec_db_from [] (accepted_sets (rc_sets c)) in
-  combine (sets_ok && tsets_ok && tree_ok t d) (map (check_rlk impl_fixed (rc_default c) d t sd) (rc_lks c)).
+  let acc := accepted_sets (rc_sets c) in
+  let sd := spec_db_from [] acc in
+  let t := fst (tload empty_tree acc) in
+  let tbl := rule_flags (rc_sets c) in
+  let sets_same := list_eqb Bool.eqb (snd (load_sets [] (rc_sets c))) (map s_obs (rc_sets c)) in
+  let tsets_same := list_eqb Bool.eqb (snd (tload_sets empty_tree (rc_sets c))) (map s_obs (rc_sets c)) in
+  let shape_same := match sd with Some d => tree_ok t d | None => false end in
+  combine (sets_same && tsets_same && shape_same) (map (check_rlk impl_fixed (rc_default c) sd t tbl) (rc_lks c)).
 
 (** ** short constructors for the generated case files *)
 Definition ad e i s b o := {| a_expr := e; a_id := i; a_src := s; a_bt := b; a_obs := o |}.
-Definition lu p ok o := {| l_path := p; l_ok := ok; l_obs := o |}.
+Definition lu p ok ms nd o := {| l_path := p; l_ok := ok; l_modes := ms; l_needle := nd; l_obs := o |}.
 Definition tc a l := {| c_adds := a; c_lks := l |}.
 Definition rd i b (routes : list string) := {| r_id := i; r_bt := b; r_routes := map s2l routes |}.
 Definition rs s r o := {| s_src := s; s_rules := r; s_obs := o |}.
-Definition rl p ok o := {| rl_path := p; rl_ok := ok; rl_obs := o |}.
+Definition rl p ok ms nd o := {| rl_path := p; rl_ok := ok; rl_modes := ms; rl_needle := nd; rl_obs := o |}.
 Definition rc d s l := {| rc_default := d; rc_sets := s; rc_lks := l |}.
